@@ -870,7 +870,7 @@ func (p *Parser) parseSelectStatement() (ast.Statement, error) {
 				expr, err = p.parseRollup()
 			} else if p.isType(models.TokenTypeCube) {
 				expr, err = p.parseCube()
-			} else if p.currentToken.Literal == "GROUPING SETS" ||
+			} else if (p.isAnyType(models.TokenTypeKeyword, models.TokenTypeGroupingSets) && p.currentToken.Literal == "GROUPING SETS") ||
 				(p.isType(models.TokenTypeGrouping) && strings.EqualFold(p.peekToken().Literal, "SETS")) {
 				expr, err = p.parseGroupingSets()
 			} else {
